@@ -55,6 +55,7 @@ var propScopeKeep = map[string][]string{
 	"C06": {"R-lex-parse-filename"},
 	"C16": {"R-twin-tables"},
 	"C09": {"R-members"},
+	"C18": {"R-operator-emission"}, // analyzer typing of an operator vs the instruction the compiler emits for it: a value typed ??T must have the members the table advertises
 	"C20": {"R-optable-symbol", "R-mangle-unique"},
 }
 
